@@ -70,10 +70,20 @@ def closure_cases(run, graphs):
 
 
 def rand_graph(rng):
-    kind = rng.choice(["chain", "tree", "dag", "cyclic", "disconnected", "parallel"])
+    kind = rng.choice(["chain", "tree", "dag", "cyclic", "disconnected", "parallel", "parallel_chain"])
     n = rng.randint(2, 9)
     labels = rng.sample(range(1, 60), n)
     E = []
+    if kind == "parallel_chain":
+        # a path (or ring) of length >= 3 some of whose edges are doubled or tripled
+        n = rng.randint(4, 9)
+        labels = rng.sample(range(1, 200), n)
+        E = [[labels[i], labels[i + 1]] for i in range(n - 1)]
+        if rng.random() < 0.3:
+            E.append([labels[-1], labels[0]])
+        E += [list(rng.choice(E)) for _ in range(rng.randint(1, n))]
+        rng.shuffle(E)
+        return E
     if kind == "chain":
         n = rng.randint(2, 40)
         labels = rng.sample(range(1, 200), n)
@@ -304,7 +314,8 @@ def all_digraphs4():
 def explore(run):
     rng = run.rng
     thorough = run.tier == "thorough"
-    closure_cases(run, [[[1, 2], [2, 3], [3, 1], [4, 5]], [], [[7, 8]]])
+    closure_cases(run, [[[1, 2], [2, 3], [3, 1], [4, 5]], [], [[7, 8]], [[1, 2], [2, 3], [3, 4], [1, 2], [2, 3]],
+                        [[a, a % 5 + 1] for a in range(1, 6)] * 2])
     if run.full():
         return
     gs = list(all_digraphs4())
